@@ -30,6 +30,9 @@ RULE = ("Hypothesis: layouts (rows 8..96, cols 16..40, grid 2..8, box >= max(4, 
         "> 5 s, and no further arrival possible). Non-trivial = stripes >= 2 and (non-identity arrival order, or a fault, or "
         "cores != stripes); distinct = distinct plan.")
 ASSUMPTIONS = [
+    "stripe-count clause: stationary noise plus a DC offset and a gentle gradient (<= 5 sigma across the image); a box that is "
+    "clipped by one row more or less at a stripe edge shifts the local mean by half the per-row gradient, so the clause can "
+    "only be asserted for gradients that are small per row compared with the noise",
     "the harness owns the order in which stripes reach and leave each synchronisation point; preemption inside numpy calls "
     "and kernel scheduling are not controlled",
     "faults are Python exceptions raised in a worker (a worker killed by a signal is outside the fault model)",
@@ -222,7 +225,7 @@ fault_case = st.fixed_dictionaries({
 stripes_case = st.fixed_dictionaries({
     "rows": st.integers(96, 160), "cols": st.integers(64, 96), "grid": st.sampled_from([4, 8]),
     "box": st.sampled_from([48, 56]), "stripes": st.integers(2, 6), "seed": st.integers(0, 2 ** 31 - 1),
-    "dc": st.sampled_from([0.0, 1000.0, -5000.0]), "gradient": st.sampled_from([0.0, 20.0]),
+    "dc": st.sampled_from([0.0, 1000.0, -5000.0]), "gradient": st.sampled_from([0.0, 5.0]),
 })
 
 
@@ -411,10 +414,10 @@ def exhaustive_orders(rec, name, tier, seed, shard, nshards, n):
 
 TESTS = {
     "schedule": {"strategy": lambda tier: schedule_case, "check": check_schedule,
-                 "n": {"quick": 70, "thorough": 3000}},
+                 "n": {"quick": 140, "thorough": 3000}},
     "fault": {"strategy": lambda tier: fault_case, "check": check_fault,
-              "n": {"quick": 70, "thorough": 2000}},
+              "n": {"quick": 140, "thorough": 2000}},
     "stripecount": {"strategy": lambda tier: stripes_case, "check": check_stripes,
-                    "n": {"quick": 24, "thorough": 600}},
+                    "n": {"quick": 36, "thorough": 600}},
     "orders3": {"custom": exhaustive_orders, "check": check_schedule, "n": {"quick": 0, "thorough": 0}},
 }
